@@ -257,7 +257,8 @@ def _shard(shard, seed, tier, n_cases):
         (1, sources.gen_params_many_features()),
         (1, sources.gen_params_large()),
         (1, sources.gen_params_near_capacity()),
-        (1, sources.gen_params_many_probabilities())])
+        (1, sources.gen_params_many_probabilities()),
+        (1, sources.gen_params_huge())])
 
     @hypothesis.seed(seed)
     @settings(max_examples=n_cases, deadline=None, database=None, phases=[Phase.generate],
